@@ -13,7 +13,7 @@ The file system is a map path ↦ bytes plus a set of directories.  What other o
 `download` of names that do not end in the temporary suffix) is `vget`.  Power loss below `rename` (torn directory entries, data not
 yet durable) is OS behaviour this model does not exhibit.
 -/
-namespace Replicat.LocalFS
+namespace Replicat.LocalUpload
 
 abbrev Path := String
 
@@ -74,4 +74,4 @@ def listFiles (fs : FS) (pre : String) : List Path :=
 /-- the specification: an atomic map update -/
 def putObj (fs : FS) (name : Path) (data : Bytes) : FS := { fs with files := setFile fs.files name data }
 
-end Replicat.LocalFS
+end Replicat.LocalUpload
